@@ -366,7 +366,7 @@ Varable failures: {var_failed}
                     )
 
         if props and dimensions:
-            out.updatetflag()
+            out.updatemeta()
 
         return out
 
@@ -415,6 +415,19 @@ Varable failures: {var_failed}
         see PseudoNetCDFFile.renameVariables
         """
         outf = PseudoNetCDFFile.renameVariables(self, *args, **kwds)
+        outf.updatemeta()
+        return outf
+
+    def stack(self, *args, **kwds):
+        """
+        Wrapper on PseudoNetCDFFile.stack that updates VAR-LIST,
+        NVARS, VAR, and TFLAG
+
+        See also
+        --------
+        see PseudoNetCDFFile.stack
+        """
+        outf = PseudoNetCDFFile.stack(self, *args, **kwds)
         outf.updatemeta()
         return outf
 
